@@ -74,3 +74,42 @@ def json_safe(x):
         return x
     except Exception:
         return repr(x)
+
+
+# -- deterministic detection of one non-termination pattern ---------------------------------------------------------
+# bounds.repeat_until_tightened loops forever when the wrapped step *widens* the interval, logging a warning on each
+# iteration. Counting those warnings turns that hang into a count-bounded failure instead of a wall-clock timeout.
+import logging  # noqa: E402
+
+WIDEN_LOOP_LIMIT = 2000
+
+
+class _WidenCounter(logging.Handler):
+    def __init__(self):
+        super().__init__(level=logging.WARNING)
+        self.count = 0
+        self.last = ''
+
+    def reset(self):
+        self.count = 0
+        self.last = ''
+
+    def emit(self, record):
+        try:
+            msg = record.getMessage()
+        except Exception:
+            return
+        if 'The most recent call to' in msg:
+            self.count += 1
+            self.last = msg[:300]
+            if self.count > WIDEN_LOOP_LIMIT:
+                from .core import Bad
+                self.count = 0
+                raise Bad('nontermination:widening-loop',
+                          f"more than {WIDEN_LOOP_LIMIT} 'bounds widened' warnings in one operation; last: {self.last}")
+
+
+WIDEN = _WidenCounter()
+_gl = logging.getLogger('graphtage')
+_gl.addHandler(WIDEN)
+_gl.propagate = False
